@@ -74,6 +74,7 @@ class State:
         self.ghost = {}        # ghost values of this activation
         self.trace = []        # branch trace for obligation naming
         self.writes = []       # log of heap writes (oid/lid, field)
+        self.dead = False      # path condition is False (after no-return)
 
     def writes_of(self, lst):
         return [w for w in self.writes if w[0] == lst.lid]
@@ -83,6 +84,7 @@ class State:
             return
         if f is False:
             self.pc.append(z3.BoolVal(False))
+            self.dead = True
             return
         self.pc.append(f)
 
@@ -95,6 +97,7 @@ class State:
         n.mut = self.mut
         n.trace = list(self.trace)
         n.writes = list(self.writes)
+        n.dead = self.dead
         return n
 
 
@@ -183,6 +186,7 @@ class LoopSpec:
         self.keep = []        # names NOT to havoc although assigned
         self.ghost_update = None   # fn(E, st) executed at end of body
         self.body_post = []   # (label, fn(E_before, E_after)) body contract
+        self.on_exit = None   # fn(E, st): ghost step on the exit path
         self.exact_index = False
 
 
@@ -335,6 +339,8 @@ class Exec:
         for s in stmts:
             nxt = []
             for st1 in cur:
+                if st1.dead:
+                    continue        # after a call that does not return
                 for st2, sig in self.exec_stmt(s, st1, fi, c):
                     if sig is None:
                         nxt.append(st2)
@@ -345,7 +351,7 @@ class Exec:
                 raise EngineError('path explosion in ' + fi.qual)
             if not cur:
                 break
-        results += [(s1, None) for s1 in cur]
+        results += [(s1, None) for s1 in cur if not s1.dead]
         return results
 
     def exec_stmt(self, s, st, fi, c):
@@ -665,6 +671,8 @@ class Exec:
                     x1.assume(Not(t))
                     exits.append(x1)
             for x1 in exits:
+                if spec.on_exit:
+                    spec.on_exit(Env(x1), x1)
                 if self.feasible(x1):
                     yield x1, None
             # 3b. body path
@@ -1033,6 +1041,14 @@ class Exec:
     def list_set(self, lst, i, v, st, line):
         n = lst.length()
         if not isinstance(i, int):
+            if len(lst.segs) == 1 and isinstance(lst.segs[0], Many):
+                sg = lst.segs[0]
+                self.prove(st, 'safe:index@%d' % line,
+                           And(0 <= zint(i), zint(i) < zint(n)), line)
+                a = Many(zint(i), sg.mk, sg.fresh, sg.label)
+                b = Many(zint(n) - zint(i) - 1, sg.mk, sg.fresh, sg.label)
+                lst.segs[:] = [a, Single(v), b]
+                return
             raise Unsupported('symbolic index store at %d' % line)
         if i == 0:
             self.prove(st, 'safe:index@%d' % line, zint(n) >= 1, line)
@@ -1914,7 +1930,23 @@ class StrSet:
         self.known_not = list(known_not)
         self.exact = exact      # membership is exactly `known`
 
+    def truth_value(self, ex, st):
+        if self.exact:
+            return len(self.known) > 0
+        if self.known:
+            return True
+        if not hasattr(self, '_nonempty'):
+            self._nonempty = fresh_bool('nonempty_' + self.name)
+        return self._nonempty
+
     def member(self, ex, st, x):
+        if isinstance(x, tuple):
+            memo = self.__dict__.setdefault('_tuples', {})
+            key = tuple((lift_str(e).arr.sexpr(), str(lift_str(e).ln))
+                        if is_str(e) else repr(e) for e in x)
+            if key not in memo:
+                memo[key] = fresh_bool('in_' + self.name)
+            return memo[key]
         if isinstance(x, str):
             if x in self.known:
                 return True
@@ -2078,6 +2110,29 @@ def _path_of(node):
 
 
 _MUTATORS = ('append', 'extend', 'insert', 'pop', 'sort', 'remove', 'clear')
+
+
+def refine_list(ex, st, lst, fn):
+    """every element of the summarised list additionally satisfies
+    fn(ex, state, elem) -- only to be used where a loop over the whole list
+    has established it (loop body contract)"""
+    new = []
+    for sg in lst.segs:
+        if isinstance(sg, Single):
+            st.assume(fn(ex, st, sg.obj))
+            new.append(sg)
+        else:
+            def mk(s1, sg=sg):
+                e = sg.mk(s1)
+                s1.assume(fn(ex, s1, e))
+                return e
+            m = Many(sg.ln, mk, sg.fresh, sg.label + '+ref', sg.indexed)
+            new.append(m)
+    lst.segs[:] = new
+    cache = st.ghost.get('$lcache')
+    if cache:
+        for k in [k for k in cache if k[0] == lst.lid]:
+            del cache[k]
 
 
 def _assigned_names(loop):
